@@ -4,7 +4,8 @@
     [ae] (whether a file sits at the archive path) and EVERY crash point k.
     [crash s ae k] is the file system after the first k steps of the run. *)
 From stdpp Require Import gmap.
-From Copia Require Import Model.Bisync Model.BisyncSteps Proofs.BisyncStepsProofs.
+From Copia Require Import Model.Bisync Model.BisyncSteps Proofs.BisyncStepsProofs Proofs.BisyncProofs
+  Proofs.BisyncRecoveryProofs.
 
 Section C08.
 Context `{Countable K} {D : Type} `{EqDecision D}.
@@ -120,22 +121,100 @@ Theorem C08_crash_paths_old_or_new_both_sides : forall (s : state) (ae : bool) (
   (fA f !! x, fB f !! x) = (tA s !! x, tB s !! x) \/ (fA f !! x, fB f !! x) = (tA s' !! x, tB s' !! x).
 Proof. intros s ae k x Hcf. exact (crash_paths_old_or_new_nc Hh dge cname kle s ae k x Hcf). Qed.
 
-(** 5. Recovery.  FULL STATEMENT (not proved in full): for every s, ae, k, with
-    conflict names fresh and injective, iterating the run from the crash state
-    (staging files seen as one-sided files; a run that stops on an I/O error
-    because of a leftover staging file is repeated) reaches trees equal to those
-    of the uninterrupted run on all non-staging paths, and no version is lost in
-    the sense of C02.
-    PROVED: for every run without a both-changed conflict (trusted archive or
-    not), every ae and every k: one re-run from the recovered state (trees and
-    archive of the crash state, staging files ignored) is again conflict free,
-    ends with exit status 0 and reaches EXACTLY the state of the uninterrupted run:
-    both trees and the archive. *)
+(** 5. Recovery, runs WITHOUT a both-changed conflict (no premise on names, trusted
+    archive or not), every ae and every k: one re-run from the recovered state
+    (trees and archive of the crash state; staging files are not part of [recover])
+    is again conflict free, ends with exit status 0 and reaches EXACTLY the state of
+    the uninterrupted run: both trees and the archive. *)
 Theorem C08_recovery_converges_partial : forall (s : state) (ae : bool) (k : nat),
   (forall x, rpath (scan Hh (tA s) !! x) (scan Hh (tB s) !! x) (base_at (arch s) x) <> Some ConfBoth) ->
   let r := recover (crash s ae k) in
   (run r).1.1 = (run s).1.1 /\ (run r).1.2 = ExitOk /\ (run s).1.2 = ExitOk.
 Proof. intros s ae k Hcf. exact (proj2 (recovery_nc Hh dge cname kle s ae k Hcf)). Qed.
+
+(** 6. Recovery, runs WITH both-changed conflicts.  Premises: exactly those of the
+    C02 / C06 theorems - [HashOk s] and [Fresh s] (the "no name clash" class, which
+    includes crash leftovers: the loser at the conflict name on one side, unrecorded).
+    Nothing else is assumed: not that conflict names are absent from the trees, not
+    that they are injective beyond clause (2) of [Fresh], nothing about the order.
+
+    FULL STATEMENT, PROVED for every s, ae and EVERY crash point k: the re-run from
+    the recovered state never stops on an I/O error; TWO re-runs reach exactly the
+    state of the uninterrupted run - both trees on all paths AND the archive - and
+    the second one ends with exit status 0.
+    Why two: (a) exit status - the first re-run legitimately exits non-zero whenever
+    a both-changed conflict was still unresolved at the crash (k = 0 is the
+    uninterrupted run itself); the second plans nothing new.  (b) trees - ONE re-run
+    does not always reach the trees of the uninterrupted run: refuted below
+    ([C08_recovery_one_rerun_refuted]); the exact shape of the gap is
+    [C08_recovery_first_rerun], and [C08_recovery_one_rerun] gives the premise under
+    which one re-run suffices.
+    Staging files are not part of [recover] (the model's re-run starts from the live
+    names and the archive file); leftover-staging re-runs are executed by the tie. *)
+Notation HashOk := (HashOk Hh).
+Notation Fresh := (Fresh Hh dge cname).
+Notation conflict := (conflict Hh dge cname).
+
+Theorem C08_recovery_converges_conflicts : forall (s : state) (ae : bool) (k : nat),
+  HashOk s -> Fresh s ->
+  let r := recover (crash s ae k) in
+  let r1 := (run r).1.1 in
+  let r2 := (run r1).1.1 in
+  (run r).1.2 <> ExitIoError /\ r2 = (run s).1.1 /\ (run r1).1.2 = ExitOk.
+Proof.
+  intros s ae k Hok F. destruct (recovery_conflicts Hh dge cname kle s ae k Hok F) as (A & _ & B & C).
+  exact (conj A (conj B C)).
+Qed.
+
+(** The state after the FIRST re-run: the state [t] of the uninterrupted run, or -
+    only when the crash fell between the two deliveries of the conflict copy of a
+    both-changed path [p] whose conflict name [q] is absent from both trees of [s]
+    but still recorded with the loser's digest (a stale record entry: the copy of an
+    earlier, identical conflict was deleted on both sides), and [q] follows [p] in
+    plan order - [t] on every path but [q], with the conflict copy [l] present on
+    ONE side only and not recorded (the planned "propagate the delete of [q]" has
+    removed, on the side of the half-delivered copy, what the conflict step had just
+    re-created there).  Nothing is lost; the second re-run copies it back. *)
+Theorem C08_recovery_first_rerun : forall (s : state) (ae : bool) (k : nat),
+  HashOk s -> Fresh s ->
+  let r1 := (run (recover (crash s ae k))).1.1 in
+  let t := (run s).1.1 in
+  r1 = t \/
+  exists sd p q l,
+    (conflict s p = Some (q, l) /\ tA s !! q = None /\ tB s !! q = None /\ base_at (arch s) q = Some (Hh l)) /\
+    (forall x, x <> q -> tA r1 !! x = tA t !! x /\ tB r1 !! x = tB t !! x /\
+                         base_at (arch r1) x = base_at (arch t) x) /\
+    tA t !! q = Some l /\ tB t !! q = Some l /\
+    side_tree sd r1 !! q = None /\ side_tree (other sd) r1 !! q = Some l /\ base_at (arch r1) q = None.
+Proof. intros s ae k Hok F. exact (proj1 (proj2 (recovery_conflicts Hh dge cname kle s ae k Hok F))). Qed.
+
+(** ONE re-run suffices (trees and archive; the exit status is 0 iff no conflict
+    was left unresolved) when the record holds no stale entry for a conflict name of
+    this run.  The extra premise is forced exactly by the refuted case below; it
+    holds whenever the record is the tree of a completed run and nobody deleted a
+    conflict copy on both sides ([C08_one_rerun_premise_satisfiable]). *)
+Theorem C08_recovery_one_rerun : forall (s : state) (ae : bool) (k : nat),
+  HashOk s -> Fresh s ->
+  (forall p q l, conflict s p = Some (q, l) -> tA s !! q = None -> tB s !! q = None ->
+                 base_at (arch s) q <> Some (Hh l)) ->
+  (run (recover (crash s ae k))).1.1 = (run s).1.1.
+Proof. exact (recovery_conflicts_one Hh dge cname kle). Qed.
+
+(** No version present when the interrupted run started is lost (C02's statement,
+    with the state after the two re-runs in place of the state after the run): it
+    is on BOTH sides - at its path or at the conflict name the run generates for it -
+    unless it is the recorded version and the other side changed or deleted the
+    path.  Already after the FIRST re-run it is on at least one side. *)
+Theorem C08_recovery_no_loss : forall (s : state) (ae : bool) (k : nat),
+  HashOk s -> Fresh s ->
+  let r1 := (run (recover (crash s ae k))).1.1 in
+  let r2 := (run r1).1.1 in
+  forall sd p c, side_tree sd s !! p = Some c ->
+    ((exists x, (x = p \/ conflict s p = Some (x, c)) /\ tA r2 !! x = Some c /\ tB r2 !! x = Some c) \/
+     (exists z, arch s = Some z /\ z !! p = Some (Hh c) /\ side_tree (other sd) s !! p <> Some c)) /\
+    ((exists x, (x = p \/ conflict s p = Some (x, c)) /\ (tA r1 !! x = Some c \/ tB r1 !! x = Some c)) \/
+     (exists z, arch s = Some z /\ z !! p = Some (Hh c) /\ side_tree (other sd) s !! p <> Some c)).
+Proof. exact (recovery_no_loss Hh dge cname kle). Qed.
 End C08.
 
 Print Assumptions C08_steps_agree.
@@ -149,6 +228,10 @@ Print Assumptions C08_crash_paths_whole.
 Print Assumptions C08_crash_paths_old_or_new.
 Print Assumptions C08_crash_paths_old_or_new_both_sides.
 Print Assumptions C08_recovery_converges_partial.
+Print Assumptions C08_recovery_converges_conflicts.
+Print Assumptions C08_recovery_first_rerun.
+Print Assumptions C08_recovery_one_rerun.
+Print Assumptions C08_recovery_no_loss.
 
 (** Non-vacuity.  K := nat, D := list Z, hash := identity.  Path 1 is new on A,
     path 2 was changed on B: two copies, then the archive save over an existing
@@ -215,11 +298,10 @@ Example C08_steps_agree_needs_premise :
   tB (bisync_run (fun x => x) ex_dge cn Nat.leb s).1.1 !! 1%nat = Some [2]%Z.
 Proof. vm_compute. split; reflexivity. Qed.
 
-(** Evidence (a finite sweep, not a theorem) for the part of recovery left
-    unproved: a run WITH a both-changed conflict (path 1; A wins, the copy of B
-    goes to 101), a propagated delete (path 2) and a propagation (path 3), killed
-    at EVERY k = 0..23 of its 23 steps; one re-run from the recovered state reaches
-    the trees and the archive of the uninterrupted run (the exit status may
+(** Non-vacuity of 6: a run WITH a both-changed conflict (path 1; A wins, the copy
+    of B goes to 101), a propagated delete (path 2) and a propagation (path 3),
+    killed at EVERY k = 0..23 of its 23 steps; one re-run from the recovered state
+    reaches the trees and the archive of the uninterrupted run (the exit status may
     differ: a conflict already resolved before the crash is not counted again). *)
 Definition ex_c : @state nat _ _ (list Z) :=
   {| tA := {[ 1%nat := [1]%Z ; 2%nat := [7]%Z ; 3%nat := [3]%Z ]};
@@ -236,3 +318,73 @@ Example C08_conflict_recovery_sweep :
                     (recover (BisyncSteps.crash (fun x => x) ex_dge ex_cname Nat.leb ex_c true k))).1.1 =
       show_state (bisync_run (fun x => x) ex_dge ex_cname Nat.leb ex_c).1.1)) (seq 0 24) = true.
 Proof. vm_compute. repeat split. Qed.
+
+(** [ex_c] meets the premises of [C08_recovery_converges_conflicts] AND the extra
+    premise of [C08_recovery_one_rerun] (its record has no entry for 101).  Killed
+    after the first delivery of the conflict copy (k = 4): B holds the loser [2] at
+    101, A does not - a one-sided, unrecorded crash leftover, inside [Fresh]. *)
+Example C08_one_rerun_premise_satisfiable :
+  let Hh := fun c : list Z => c in
+  BisyncProofs.HashOk Hh ex_c /\ BisyncProofs.Fresh Hh ex_dge ex_cname ex_c /\
+  BisyncProofs.conflict Hh ex_dge ex_cname ex_c 1%nat = Some (101%nat, [2]%Z) /\
+  (forall p q l, BisyncProofs.conflict Hh ex_dge ex_cname ex_c p = Some (q, l) ->
+     tA ex_c !! q = None -> tB ex_c !! q = None -> base_at (arch ex_c) q <> Some (Hh l)) /\
+  let f := BisyncSteps.crash Hh ex_dge ex_cname Nat.leb ex_c true 4 in
+  fA f !! 101%nat = None /\ fB f !! 101%nat = Some [2]%Z /\ farch f = arch ex_c /\
+  BisyncProofs.Fresh Hh ex_dge ex_cname (recover f).
+Proof.
+  cbv zeta. split; [intros p x y _ _ E; exact E|].
+  split; [apply fresh_check_sound; vm_compute; reflexivity|]. split; [vm_compute; reflexivity|]. split.
+  - intros p q l E _ _. apply (elem_of_conflicts (fun c : list Z => c) ex_dge ex_cname) in E. vm_compute in E.
+    apply elem_of_list_singleton in E. injection E as -> -> ->. vm_compute. discriminate.
+  - split; [vm_compute; reflexivity|]. split; [vm_compute; reflexivity|]. split; [vm_compute; reflexivity|].
+    apply fresh_check_sound. vm_compute. reflexivity.
+Qed.
+
+(** the first re-run legitimately exits non-zero when a conflict was still
+    unresolved at the crash (here k = 0: nothing done yet); the second exits 0 *)
+Example C08_first_rerun_may_exit_nonzero :
+  let run := bisync_run (fun x => x) ex_dge ex_cname Nat.leb in
+  let r := recover (BisyncSteps.crash (fun x => x) ex_dge ex_cname Nat.leb ex_c true 0) in
+  (run r).1.2 = ExitConflicts /\ (run (run r).1.1).1.2 = ExitOk.
+Proof. vm_compute. split; reflexivity. Qed.
+
+(** REFUTED: "one re-run from every crash state reaches the trees of the
+    uninterrupted run" under [HashOk] and [Fresh] alone.  Path 1 is both-changed
+    (A's [2] wins, B's [1] is the loser, conflict name 101); 101 is absent from both
+    trees but the record still holds [1] for it (an earlier identical conflict whose
+    copy was deleted on both sides).  The state is inside [Fresh].  Killed after the
+    first delivery of the conflict copy (k = 4: B holds [1] at 101, A does not): the
+    re-run plans [(1, ConfBoth); (101, DelB)]; the conflict step re-creates 101 on
+    both sides and the planned delete removes it on B again.  After ONE re-run the
+    trees differ at 101 (A holds the loser, B nothing; exit status non-zero); the
+    SECOND re-run propagates it and reaches the state of the uninterrupted run with
+    exit status 0 - as [C08_recovery_converges_conflicts] says of every state. *)
+Definition ex_dge2 := fun a b : list Z => (default 0 (head b) <=? default 0 (head a))%Z.
+Definition ex_stale : @state nat _ _ (list Z) :=
+  {| tA := {[ 1%nat := [2]%Z ]}; tB := {[ 1%nat := [1]%Z ]}; arch := Some {[ 101%nat := [1]%Z ]} |}.
+
+Theorem C08_recovery_one_rerun_refuted :
+  exists (s : @state nat _ _ (list Z)) (ae : bool) (k : nat),
+    let Hh := fun c : list Z => c in
+    let run := bisync_run Hh ex_dge2 ex_cname Nat.leb in
+    BisyncProofs.HashOk Hh s /\ BisyncProofs.Fresh Hh ex_dge2 ex_cname s /\
+    let r := recover (BisyncSteps.crash Hh ex_dge2 ex_cname Nat.leb s ae k) in
+    let r1 := (run r).1.1 in
+    show_state r = ([ (1%nat, [2]%Z) ], [ (1%nat, [1]%Z); (101%nat, [1]%Z) ], Some [ (101%nat, [1]%Z) ]) /\
+    (run r).2 = [ (1%nat, ConfBoth); (101%nat, DelB) ] /\ (run r).1.2 = ExitConflicts /\
+    show_state (run s).1.1 =
+      ([ (1%nat, [2]%Z); (101%nat, [1]%Z) ], [ (1%nat, [2]%Z); (101%nat, [1]%Z) ], Some [ (1%nat, [2]%Z); (101%nat, [1]%Z) ]) /\
+    show_state r1 = ([ (1%nat, [2]%Z); (101%nat, [1]%Z) ], [ (1%nat, [2]%Z) ], Some [ (1%nat, [2]%Z) ]) /\
+    r1 <> (run s).1.1 /\ tA r1 <> tB r1 /\
+    show_state (run r1).1.1 = show_state (run s).1.1 /\ (run r1).1.2 = ExitOk.
+Proof.
+  exists ex_stale, true, 4. cbv zeta.
+  split; [intros p x y _ _ E; exact E|]. split; [apply fresh_check_sound; vm_compute; reflexivity|].
+  split; [vm_compute; reflexivity|]. split; [vm_compute; reflexivity|]. split; [vm_compute; reflexivity|].
+  split; [vm_compute; reflexivity|]. split; [vm_compute; reflexivity|]. split; [|split].
+  - intros E. apply (f_equal (fun t => tB t !! 101%nat)) in E. vm_compute in E. discriminate E.
+  - intros E. apply (f_equal (fun t => t !! 101%nat)) in E. vm_compute in E. discriminate E.
+  - vm_compute. split; reflexivity.
+Qed.
+Print Assumptions C08_recovery_one_rerun_refuted.
